@@ -152,6 +152,23 @@ def run(rep, tier, rng):
     late.append((["Fl1.sld=" + healthy(1, [])], [(">(import (l0))", "libNotFound"), (">(import (l1))", "ok"), ("F", 0), (">(import (l0))", "ok"), (">v0", "V i:0")]))
     late.append((["Fl0.sld=" + healthy(0, [1]), "Fl1.sld=" + healthy(1, [2])],
                  [(">(import (l0))", "libNotFound"), (">(import (l1))", "libNotFound"), ("F", 2), (">(import (l1))", "ok"), (">(import (l0))", "ok")]))
+    # library names whose elements contain DOTS: the file is <element>.sld with the element's whole text (found by a prover reading
+    # `with_extension`, a genuine defect repaired in /repo); a file named after the text before the dot is NOT that library
+    dotlib = lambda nm, v: "(define-library (%s) (import (scheme base)) (export v0) (begin (define v0 %d)))" % (nm, v)
+    late.append((["Fa.b.sld=" + dotlib("a.b", 0), "Fa.sld=" + dotlib("a.c", 9)], [(">(import (scheme base) (a.b))", "ok"), (">v0", "V i:0")]))
+    late.append((["Fa.sld=" + dotlib("a.b", 9)], [(">(import (a.b))", "libNotFound")]))
+    late.append((["Fd/v1.2.sld=" + dotlib("d v1.2", 0), "Fd/v1.sld=" + dotlib("d v1.5", 5)], [(">(import (scheme base) (d v1.2))", "ok"), (">v0", "V i:0")]))
+    # what one library FILE defined at parse time (a library-level macro) is gone when the next file is parsed: a later library that
+    # uses that identifier as its own procedure - or not at all bound - is loaded as if it were the first; whether the earlier import
+    # succeeded or failed
+    hmac = "(define-library (h) (import (scheme base)) (export hv) (begin (define-syntax twice (syntax-rules () ((twice e) (* 2 e)))) (define hv (twice 5))%s))"
+    usr = "(define-library (u) (import (scheme base)) (export v0) (begin (define (twice e) (+ e 1)) (define v0 (twice 20))))"
+    usr2 = "(define-library (w) (import (scheme base)) (export v1) (begin (define v1 (twice 20))))"
+    late.append((["Fh.sld=" + hmac % "", "Fu.sld=" + usr, "Fw.sld=" + usr2],
+                 [(">(import (scheme base) (h))", "ok"), (">(import (u))", "ok"), (">(import (w))", "unbound"), (">v0", "V i:21")]))
+    late.append((["Fh.sld=" + hmac % " (car 5)", "Fu.sld=" + usr, "Fw.sld=" + usr2],
+                 [(">(import (scheme base) (h))", "type"), (">(import (scheme base) (u))", "ok"), (">(import (w))", "unbound"), (">v0", "V i:21")]))
+    late.append((["Fh.sld=" + hmac % "", "Fu.sld=" + usr], [(">(import (scheme base) (u) (h))", "ok"), (">v0", "V i:21"), (">hv", "V i:10")]))
     for j, (pre, script) in enumerate(late):
         fields, wants = ["nostd"] + pre, []
         for item, w in script:
@@ -166,7 +183,8 @@ def run(rep, tier, rng):
         rep.nontrivial(("late", tuple(fields)))
         got = ["ok" if x == "N" else (x.split(" ")[1] if x.startswith("E ") else x) for x in r]
         if got != wants:
-            rep.violation({"what": "after a library file has appeared (or been repaired) an import does not have the outcome the files now determine",
+            rep.violation({"what": "an import does not have the outcome the library files determine at that moment (a file appeared or was repaired, a name with "
+                                   "a dot, a macro of another library file)",
                            "fields": fields, "expected": wants, "implementation": r})
         elif [R.norm_result(x) for x in r] != [R.norm_result(x) for x in m]:
             rep.violation({"broken": "correspondence Interp (file lookup over time) <-> interpreter.rs", "fields": fields,
